@@ -26,7 +26,10 @@ CFG = dict(
               "lint_string_wrapped) and through the sqruff binary built from the tree (sqruff fix/lint over ten shapes of the path "
               "argument list, stdin included) + an independent reading of which tokens each policy applies to (scope walk over the "
               "parse tree): every such token is in the configured case after the fix, is handed to handle_segment during a lint "
-              "(recorder), and the calls of each rule's whole crawl agree with the Gallina trace over the scope tokens",
+              "(recorder), and the calls of each rule's whole crawl agree with the Gallina trace over the scope tokens; the same "
+              "observations on placeholder-templated sources (templater = placeholder, every param_style): the source text fix "
+              "writes back is compared with the source, re-rendered and re-linted / re-fixed; which tokens come out of a placeholder "
+              "is read off the templater's slice table, not through is_templated",
     level_text="C16_case_only, C16_concrete_idempotent, C16_pass_case_only and C16_concrete_pass_stable are closed Coq theorems for "
                "every ASCII token, token sequence, memory, ignore list and option list: a fix changes only letter case, and for "
                "upper/lower/capitalise/pascal a second crawl reports and changes nothing. For consistent the frozen-verdict "
@@ -60,6 +63,11 @@ CFG = dict(
          "or parts of them (pieces between underscores, prefixes, suffixes), ignore_words_regex anchored patterns over them. "
          "Per input and element kind: the scope tokens against the recorded calls of a lint (direct), the whole crawl against "
          "the Gallina trace (group crawl), every scope token of the fixed text in the configured case (direct, per entry point). "
+         "Placeholder-templated sources: the same statements, corpus files and scrambles with tokens the dialect's parser finds "
+         "(identifiers, function names, integer and simple string literals, one source in four also keywords / types / null / booleans) "
+         "replaced, at three densities, by placeholders of a random param_style whose parameter value is the token's text (names short "
+         "and long: values shorter than, as long as and longer than the placeholder; placeholders that start a syntax element, sit "
+         "inside or end one, with tokens to re-case before and after), through every entry point and the command line. "
          "Every handle_segment call "
          "(raw, policy, option list, memory before/after, result) is a correspondence case, deduplicated per file; "
          "non-trivial = the call reported a fix; distinct = distinct (args, expected) terms",
